@@ -28,14 +28,11 @@ ASSUMPTIONS = ['len argument equals the length of the supplied buffer (exact-siz
 REQUIRED_THEOREMS = ['OpusProps.C16.iter_safe', 'OpusProps.C16.iter_terminates', 'OpusProps.C16.count_parse_agree',
                      'OpusProps.C16.parse_ext_stable_sort',
                      'OpusProps.C16.generate_dry_eq_written', 'OpusProps.C16.generate_exact_and_smaller',
-                     'OpusProps.C16.generate_within', 'OpusProps.C16.generate_bad_arg',
+                     'OpusProps.C16.generate_within', 'OpusProps.C16.generate_bad_arg', 'OpusProps.C16.generate_bad_len',
                      'OpusProps.C16.generate_parse', 'OpusProps.C16.generate_parse_padded', 'OpusProps.C16.generate_parse_ext',
                      'OpusProps.C16.fixed_point',
                      'OpusProps.C16.parse_canonical']
-UNPROVED = ['generate: short-ID extension with len > 1 or any extension with len < 0 => OPUS_BAD_ARG (proved only for bad id/frame/'
-            'nb_frames: the length check sits inside write_extension_payload; proving that every extension is reached needs the '
-            'generator specification re-proved without the length-validity hypothesis)',
-            'int_ranges: lengths/positions are unbounded Int/Nat in the model (opus_int32 overflow for buffers >= 2^31 not excluded)']
+UNPROVED = ['int_ranges: lengths/positions are unbounded Int/Nat in the model (opus_int32 overflow for buffers >= 2^31 not excluded)']
 
 
 def _cases(ctx, quick, thorough):
